@@ -487,4 +487,30 @@ def rewrapHistory : List Bool → Option WToken → Option WToken
   | true :: rest, some t => rewrapHistory rest (some (rewrapTok t))
   | false :: rest, some _ => rewrapHistory rest none
 
+/-! ### writers of the token entry that are not uses
+
+`revokeInternal`'s orphaning loop and `handleTidy` rewrite a child's token entry with `Parent = ""`. `UseToken` does its
+read–decrement–write under the token's lock. Critical sections under that lock are atomic with respect to each other, so
+at this level an execution is a sequence of atomic actions. Since the repair F82 the orphaning re-reads the entry with
+the lock held (`clearParent`): one atomic action that leaves the count alone. Before it the entry was read OUTSIDE the
+lock and written inside: two actions, a use may fall between them. -/
+
+inductive EntryAct where
+  | use                       -- `UseToken`: count - 1 (the count is positive for a usable token)
+  | orphan                    -- `clearParent`: re-read and rewrite under the lock
+  | orphanRead                -- (before the repair) the read outside the lock …
+  | orphanWrite               -- … and the write of that stale copy inside
+  deriving DecidableEq, Repr
+
+/-- (stored count, the stale copy an orphaner holds) -/
+def entryStep (s : Nat × Option Nat) : EntryAct → Nat × Option Nat
+  | .use => (s.1 - 1, s.2)
+  | .orphan => s
+  | .orphanRead => (s.1, some s.1)
+  | .orphanWrite => match s.2 with
+    | some r => (r, none)
+    | none => s
+
+def entryRun (s : Nat × Option Nat) (l : List EntryAct) : Nat × Option Nat := l.foldl entryStep s
+
 end Obao.UseCount
